@@ -187,6 +187,14 @@ def body(ctx: H.BaseCtx):
                 else:
                     path = os.path.join(tmpdir, "poly.txt")
                     saver(path, p, **kw)
+                    if not ctx.symbolic:
+                        # a partial read with less common arguments first (a preview): whatever it returns or raises, it must
+                        # leave nothing behind that changes the ordinary read that follows
+                        for extra in ({"max_rows": 1}, {"skiprows": 1, "ndmin": 1}, {"usecols": (0,)}):
+                            try:
+                                numpoly.loadtxt(path, **dict(lkw, **extra))
+                            except Exception:
+                                pass
                     q = numpoly.loadtxt(path, **lkw)
             except Exception as e:
                 ctx.unexpected_exception(e, "savetxt/loadtxt")
